@@ -396,3 +396,411 @@ Proof.
     split; [right; repeat split; reflexivity|]. split; [reflexivity|exact I].
   - vm_compute. reflexivity.
 Qed.
+
+(* ==========================================================================================
+   Answers to the referee report (design/reviews/C12.md).  Proofs: Abi/EntryReferee.v,
+   Abi/EntryRefereeEvent.v.
+   ========================================================================================== *)
+From FFS Require Import Base.Keccak Abi.EntryReferee Abi.EntryRefereeEvent.
+
+(* 11. (issue 3) The hash of the running system named: with Keccak-256 of Base/Keccak.v (the Gallina
+       implementation the correspondence run re-checks x/crypto/sha3 against) the selector is the
+       first four bytes of keccak256("name(canonical types)") and the event topic the whole digest. *)
+Theorem C12_selector_keccak :
+  forall (e : entry) (cs : list tcomp),
+    tree_children (e_inputs e) = Ok cs -> all_suffix_canonical cs ->
+    let sig := signature_spec (e_name e) (map ty_of cs) in
+    GenerateFunctionSelector keccak256 e = Ok (firstn 4 (keccak256 sig)) /\
+    FunctionSelectorBytes keccak256 e = Ok (firstn 4 (keccak256 sig)) /\
+    SignatureHash keccak256 e = Ok (keccak256 sig) /\
+    SignatureHashBytes keccak256 e = keccak256 sig.
+Proof. exact selector_keccak. Qed.
+Print Assumptions C12_selector_keccak.
+
+Theorem C12_selector_keccak_from_json :
+  forall (ty : etype) (name : bytes) (anonymous : bool) (ps : list (AbiType.Syntax.param * bool)) (ts : list Abi.Types.ty),
+    spells ps ts ->
+    let e := link_entry ty name anonymous ps in
+    Signature e = Ok (signature_spec name ts) /\
+    GenerateFunctionSelector keccak256 e = Ok (firstn 4 (keccak256 (signature_spec name ts))) /\
+    SignatureHashBytes keccak256 e = keccak256 (signature_spec name ts).
+Proof. exact selector_keccak_from_json. Qed.
+Print Assumptions C12_selector_keccak_from_json.
+
+(* 11b. Call data with Keccak-256, C02's encoder model and C03's decoder model (guards of theorem 10). *)
+Theorem C12_calldata_roundtrip_keccak :
+  forall (e : entry) (cs : list tcomp) (x : cval),
+    tree_children (e_inputs e) = Ok cs -> all_suffix_canonical cs ->
+    let tc := TCTuple cs [] in
+    tc_wf tc = true -> tc_no_fixed_point tc = true -> tc_no_zero_len tc = true ->
+    typed_as tc x = true -> Abi.EncProofs3.values_ok x = true ->
+    Abi.Spec.well_typed (ty_of tc) (val_of x) = true -> Abi.EncProofs3.weight_ok (val_of x) ->
+    (Abi.DecModel.zlen (Abi.Spec.enc (ty_of tc) (val_of x)) < 2 ^ 32)%Z -> Abi.DecProofs3.counts_ok (val_of x) = true ->
+    let b := firstn 4 (keccak256 (signature_spec (e_name e) (map ty_of cs))) ++
+             Abi.Spec.enc (TTuple (map ty_of cs)) (val_of x) in
+    EncodeCallData keccak256 Abi.EncModel.EncodeABIData e x = Ok b /\
+    DecodeCallData keccak256 Abi.DecModel.DecodeABIData e b = Ok (Abi.DecSpec.cv_of tc (val_of x)).
+Proof. exact calldata_roundtrip_keccak. Qed.
+Print Assumptions C12_calldata_roundtrip_keccak.
+
+(* 12. (issue 2) ACCEPTANCE of event logs, for every hash and every codec.  A log that carries the
+       event's own signature hash first (unless anonymous), then one topic per indexed input each of
+       which yields a value ([topic_yields]: [dece topic tc 0 0 = Ok v] for value types, the raw topic
+       otherwise), then possibly surplus topics, and whose data decodes as the tuple of the
+       non-indexed inputs to one value per member (or there is no non-indexed input), IS decoded: to the
+       topic values and the data values in declaration order ([weave] by the indexed flags). *)
+Theorem C12_event_accept :
+  forall (H : bytes -> bytes) (dec : tcomp -> bytes -> Z -> res cval) (dece : bytes -> tcomp -> Z -> Z -> res cval)
+         (e : entry) (cs : list tcomp) (tps : list bytes) (tvs : list cval) (extra : list bytes) (data : bytes)
+         (c : option tcomp) (dvs : list cval) (g : gval),
+    tree_children (e_inputs e) = Ok cs ->
+    let l := zip_inputs cs (e_inputs e) in
+    List.length tps = List.length tvs ->
+    Forall2 (fun tc tv => topic_yields dece tc (fst tv) (snd tv)) (indexed_args l) (combine tps tvs) ->
+    (data_args l = [] /\ dvs = [] \/
+     dec (TCTuple (data_args l) []) data 0%Z = Ok (CV c dvs g) /\ List.length dvs = List.length (data_args l)) ->
+    DecodeEventData H dec dece e
+      ((if e_anonymous e then [] else [SignatureHashBytes H e]) ++ tps ++ extra) data
+    = Ok (CV (Some (TCTuple cs [])) (weave (map p_indexed (e_inputs e)) tvs dvs) GNil).
+Proof. exact event_accept. Qed.
+Print Assumptions C12_event_accept.
+
+(* 12b. (issue 2) THE EMITTED LOG DECODES TO THE EMITTED VALUES, with the Solidity encoding of the
+       specification and the decoder model of C03 (theorem C03_decode_encode) plugged in.
+       For an event with inputs (T1 [indexed] .. Tn [indexed]) and emitted arguments [args] (value xi
+       and, for an indexed argument of a non-value type, the 32-byte hash hi the EVM stores -- any
+       bytes here):
+         topics = [SignatureHashBytes e unless anonymous] ++ [enc(Ti, xi) | hi : indexed i] (++ surplus)
+         data   = enc((Tj..), (xj..)) over the non-indexed inputs
+       decode to the tree whose i-th child is the tree of xi ([cv_of]), or the raw topic hi as a
+       [bytes] value carrying the input's key for an indexed non-value type.
+       Guards (C03's quantifier, decidable): indexed value-type arguments are [tc_wf], not fixed-point
+       and well typed ([topics_guard]); the data tuple is [tc_wf], without fixed-point and T[0]
+       members, well typed, its encoding shorter than 2^32 bytes, [counts_ok]. *)
+Theorem C12_event_roundtrip_codec :
+  forall (H : bytes -> bytes) (e : entry) (cs : list tcomp) (args : list emitted) (extra : list bytes),
+    tree_children (e_inputs e) = Ok cs ->
+    let l := zip_inputs cs (e_inputs e) in
+    List.length args = List.length cs ->
+    topics_guard l args = true ->
+    let dt := TCTuple (data_args l) [] in
+    let dv := Abi.Spec.VList (log_data_vals l args) in
+    tc_wf dt = true -> tc_no_fixed_point dt = true -> tc_no_zero_len dt = true ->
+    Abi.Spec.well_typed (ty_of dt) dv = true ->
+    (Abi.DecModel.zlen (Abi.Spec.enc (ty_of dt) dv) < 2 ^ 32)%Z -> Abi.DecProofs3.counts_ok dv = true ->
+    DecodeEventData H Abi.DecModel.DecodeABIData Abi.DecModel.decode_elementary e
+      ((if e_anonymous e then [] else [SignatureHashBytes H e]) ++ log_topics l args ++ extra) (log_data l args)
+    = Ok (CV (Some (TCTuple cs [])) (log_children l args) GNil).
+Proof. exact event_roundtrip_codec. Qed.
+Print Assumptions C12_event_roundtrip_codec.
+
+(* 12c. The same with Keccak-256 and the signature topic written out. *)
+Theorem C12_event_roundtrip_keccak :
+  forall (e : entry) (cs : list tcomp) (args : list emitted) (extra : list bytes),
+    tree_children (e_inputs e) = Ok cs -> all_suffix_canonical cs ->
+    let l := zip_inputs cs (e_inputs e) in
+    List.length args = List.length cs ->
+    topics_guard l args = true ->
+    let dt := TCTuple (data_args l) [] in
+    let dv := Abi.Spec.VList (log_data_vals l args) in
+    tc_wf dt = true -> tc_no_fixed_point dt = true -> tc_no_zero_len dt = true ->
+    Abi.Spec.well_typed (ty_of dt) dv = true ->
+    (Abi.DecModel.zlen (Abi.Spec.enc (ty_of dt) dv) < 2 ^ 32)%Z -> Abi.DecProofs3.counts_ok dv = true ->
+    DecodeEventData keccak256 Abi.DecModel.DecodeABIData Abi.DecModel.decode_elementary e
+      ((if e_anonymous e then [] else [keccak256 (signature_spec (e_name e) (map ty_of cs))])
+       ++ log_topics l args ++ extra) (log_data l args)
+    = Ok (CV (Some (TCTuple cs [])) (log_children l args) GNil).
+Proof. exact event_roundtrip_keccak. Qed.
+Print Assumptions C12_event_roundtrip_keccak.
+
+(* 13. (issue 5) Which definition, which arguments.  The first definition of (Error(string) :: ABI)
+       that accepts the revert data is the one returned, with its own decode -- no assumption about
+       panics. *)
+Theorem C12_error_found_first :
+  forall (H : bytes -> bytes) (dec : tcomp -> bytes -> Z -> res cval) (a : list entry) (d : bytes)
+         (pre : list entry) (e : entry) (post : list entry) (v : cval),
+    default_error :: a = pre ++ e :: post ->
+    e_type e = TyError -> DecodeCallData H dec e d = Ok v ->
+    (forall e', In e' pre -> e_type e' = TyError -> exists c, DecodeCallData H dec e' d = Err c) ->
+    ParseError H dec a d = Ok (Some (e, v)).
+Proof. exact error_found_first. Qed.
+Print Assumptions C12_error_found_first.
+
+(* 13b. C12_error_found with its witness named: the attributed definition is the first accepting one,
+        it carries the selector found in the data, the arguments are its own decode. *)
+Theorem C12_error_found_named :
+  forall (H : bytes -> bytes) (dec : tcomp -> bytes -> Z -> res cval) (a : list entry) (d : bytes),
+    (forall e, In e (default_error :: a) -> DecodeCallData H dec e d <> Panic) ->
+    (exists e v, In e (default_error :: a) /\ e_type e = TyError /\ DecodeCallData H dec e d = Ok v) ->
+    exists pre e post v,
+      default_error :: a = pre ++ e :: post /\ e_type e = TyError /\
+      ParseError H dec a d = Ok (Some (e, v)) /\
+      DecodeCallData H dec e d = Ok v /\
+      GenerateFunctionSelector H e = Ok (firstn 4 d) /\
+      (forall e', In e' pre -> e_type e' = TyError -> exists c, DecodeCallData H dec e' d = Err c).
+Proof. exact error_found_named. Qed.
+Print Assumptions C12_error_found_named.
+
+(* 13c. With C02's encoder model and C03's decoder model: revert data built for an error definition e of
+        the ABI, selector ++ enc(arguments), is attributed to e itself with exactly the argument tree,
+        provided no earlier error definition (the built-in Error(string) included) has e's selector.
+        (Guards of theorem 10.) *)
+Theorem C12_error_roundtrip_codec :
+  forall (H : bytes -> bytes), (forall m, List.length (H m) = 32%nat) ->
+  forall (a : list entry) (pre post : list entry) (e : entry) (cs : list tcomp) (x : cval),
+    default_error :: a = pre ++ e :: post -> e_type e = TyError ->
+    (forall e', In e' pre -> e_type e' = TyError -> GenerateFunctionSelector H e' <> GenerateFunctionSelector H e) ->
+    tree_children (e_inputs e) = Ok cs -> all_suffix_canonical cs ->
+    let tc := TCTuple cs [] in
+    tc_wf tc = true -> tc_no_fixed_point tc = true -> tc_no_zero_len tc = true ->
+    typed_as tc x = true -> Abi.EncProofs3.values_ok x = true ->
+    Abi.Spec.well_typed (ty_of tc) (val_of x) = true -> Abi.EncProofs3.weight_ok (val_of x) ->
+    (Abi.DecModel.zlen (Abi.Spec.enc (ty_of tc) (val_of x)) < 2 ^ 32)%Z -> Abi.DecProofs3.counts_ok (val_of x) = true ->
+    ParseError H Abi.DecModel.DecodeABIData a
+      (selector_spec H (e_name e) (map ty_of cs) ++ Abi.Spec.enc (TTuple (map ty_of cs)) (val_of x))
+    = Ok (Some (e, Abi.DecSpec.cv_of tc (val_of x))).
+Proof. exact error_roundtrip_codec. Qed.
+Print Assumptions C12_error_roundtrip_codec.
+
+(* 14. (issue 7) The link to the type parser does not hide a panic: the parser model never panics
+       (C13_total) and a parameter object has no type tree in the entry model exactly when the parser
+       refuses it with an error. *)
+Theorem C12_link_param_none_is_refusal :
+  forall (p : AbiType.Syntax.param) (ix : bool),
+    AbiType.Model.Validate p <> Panic /\
+    (p_tc (link_param p ix) = None <-> exists c, AbiType.Model.Validate p = Err c).
+Proof. exact link_param_none_is_refusal. Qed.
+Print Assumptions C12_link_param_none_is_refusal.
+
+(* ---------- non-vacuity of the referee round ---------- *)
+
+(* Keccak-256 computed in Coq: transfer(address,uint256) has selector a9059cbb *)
+Example C12_keccak_nonvacuous :
+  GenerateFunctionSelector keccak256 ex_transfer = Ok [xa9; x05; x9c; xbb] /\
+  firstn 4 (SignatureHashBytes keccak256
+     (mkEntry TyEvent (Sb "Transfer") false
+        [mkParam (Some (tAddr "from")) true; mkParam (Some (tAddr "to")) true; mkParam (Some (tU256 "value")) false]))
+  = [xdd; xf2; x52; xad].
+Proof. split; vm_compute; reflexivity. Qed.
+
+Definition tI64 k := TCElem EInt (Sb "64") 64 0 (Sb k).
+Definition tBool k := TCElem EBool [] 8 0 (Sb k).
+(* event V(uint256 indexed a, bool indexed b, string c, int64 indexed d, string indexed s) *)
+Definition ex_event2 : entry :=
+  mkEntry TyEvent (Sb "V") false
+    [mkParam (Some (tU256 "a")) true; mkParam (Some (tBool "b")) true; mkParam (Some (tStr "c")) false;
+     mkParam (Some (tI64 "d")) true; mkParam (Some (tStr "s")) true].
+Definition ex_args2 : list emitted :=
+  [(Abi.Spec.VNum 1000, []); (Abi.Spec.VNum 1, []); (Abi.Spec.VBytes (Sb "hello"), []);
+   (Abi.Spec.VNum (-5), []); (Abi.Spec.VBytes (Sb "hashed away"), repeat x77 32)].
+
+(* the guards of C12_event_roundtrip_codec hold for a log with an indexed integer, boolean, negative
+   integer and string; the conclusion's two sides, evaluated *)
+Example C12_event_roundtrip_nonvacuous :
+  let cs := [tU256 "a"; tBool "b"; tStr "c"; tI64 "d"; tStr "s"] in
+  let l := zip_inputs cs (e_inputs ex_event2) in
+  let dt := TCTuple (data_args l) [] in
+  let dv := Abi.Spec.VList (log_data_vals l ex_args2) in
+  tree_children (e_inputs ex_event2) = Ok cs /\ List.length ex_args2 = List.length cs /\
+  topics_guard l ex_args2 = true /\
+  tc_wf dt = true /\ tc_no_fixed_point dt = true /\ tc_no_zero_len dt = true /\
+  Abi.Spec.well_typed (ty_of dt) dv = true /\
+  (Abi.DecModel.zlen (Abi.Spec.enc (ty_of dt) dv) < 2 ^ 32)%Z /\ Abi.DecProofs3.counts_ok dv = true /\
+  List.length (log_topics l ex_args2) = 4%nat /\
+  map val_of (log_children l ex_args2) =
+    [Abi.Spec.VNum 1000; Abi.Spec.VNum 1; Abi.Spec.VBytes (Sb "hello"); Abi.Spec.VNum (-5); Abi.Spec.VBytes (repeat x77 32)].
+Proof.
+  cbv zeta. split; [reflexivity|]. split; [reflexivity|]. split; [vm_compute; reflexivity|].
+  split; [vm_compute; reflexivity|]. split; [vm_compute; reflexivity|]. split; [vm_compute; reflexivity|].
+  split; [vm_compute; reflexivity|]. split; [vm_compute; reflexivity|]. split; [vm_compute; reflexivity|].
+  split; vm_compute; reflexivity.
+Qed.
+
+(* the model CAN answer Panic / Err where theorems exclude it under a hypothesis: a topic decoder that
+   panics makes the event decoder panic (so C12_event_refuse #4 needs its hypothesis, and #3 is stated
+   as "<> Ok"), a hash shorter than four bytes makes k[0:4] panic (so the 32-byte hypothesis of
+   C12_calldata_foreign_refused is needed), and a data decoder that panics makes ParseError panic
+   (the no-panic hypothesis of C12_error_found / C12_error_found_named) *)
+Example C12_model_can_panic :
+  DecodeEventData toyH Abi.DecModel.DecodeABIData (fun _ _ _ _ => Panic) ex_event2
+    [SignatureHashBytes toyH ex_event2; repeat x00 32] [] = Panic /\
+  GenerateFunctionSelector (fun _ => [x01; x02; x03]) ex_transfer = Panic /\
+  DecodeCallData (fun _ => [x01; x02; x03]) Abi.DecModel.DecodeABIData ex_transfer [x01; x02; x03; x04] = Panic /\
+  ParseError toyH (fun _ _ _ => Panic) [] (firstn 4 (toyH (Sb "Error(string)"))) = Panic /\
+  (exists c, DecodeEventData toyH Abi.DecModel.DecodeABIData Abi.DecModel.decode_elementary ex_event2
+               [SignatureHashBytes toyH ex_event2; repeat x00 31] [] = Err c).
+Proof.
+  split; [vm_compute; reflexivity|]. split; [vm_compute; reflexivity|]. split; [vm_compute; reflexivity|].
+  split; [vm_compute; reflexivity|]. eexists. vm_compute. reflexivity.
+Qed.
+
+(* an invalid type text ("uint7") in second position: the hypothesis of C12_signature_invalid_json *)
+Example C12_signature_invalid_json_nonvacuous :
+  let P := AbiType.Syntax.Param in
+  let ps := [(P (Sb "address") [], false); (P (Sb "uint7") [], false)] in
+  Exists (fun pi => ~ exists t, valid_type t = true /\
+                       spelling t (AbiType.Syntax.p_type (fst pi)) (AbiType.Syntax.p_comps (fst pi))) ps /\
+  (exists c, Signature (link_entry TyFunction (Sb "f") false ps) = Err c).
+Proof.
+  cbv zeta. split.
+  - apply Exists_cons_tl. apply Exists_cons_hd. cbn [fst AbiType.Syntax.p_type AbiType.Syntax.p_comps].
+    intros (t & Hv & Hs). destruct (AbiType.ProofsMain.validate_complete t _ _ Hv Hs) as (tc & E & _).
+    vm_compute in E. discriminate.
+  - eexists. vm_compute. reflexivity.
+Qed.
+
+(* C12_error_found / _named / _first / C12_error_string: hypotheses met by a custom error after a function *)
+Example C12_error_found_nonvacuous :
+  let insufficient := mkEntry TyError (Sb "Insufficient") false [mkParam (Some (tU256 "need")) false] in
+  let a := [ex_transfer; insufficient] in
+  let args := CV (Some (TCTuple [tU256 "need"] [])) [CV (Some (tU256 "need")) [] (GBigInt 5)] GNil in
+  let fa := fun cv : cval => match cv with CV _ [CV _ _ (GBigInt z)] _ => Some [fmt_Z z] | _ => None end in
+  exists d,
+    EncodeCallData toyH EncModel.EncodeABIData insufficient args = Ok d /\
+    (forall e, In e (default_error :: a) -> DecodeCallData toyH DecModel.DecodeABIData e d <> Panic) /\
+    (exists e v, In e (default_error :: a) /\ e_type e = TyError /\ DecodeCallData toyH DecModel.DecodeABIData e d = Ok v) /\
+    default_error :: a = [default_error; ex_transfer] ++ insufficient :: [] /\
+    (forall e', In e' [default_error; ex_transfer] -> e_type e' = TyError ->
+                exists c, DecodeCallData toyH DecModel.DecodeABIData e' d = Err c) /\
+    ErrorString toyH DecModel.DecodeABIData fa a d = Ok (Sb "Insufficient(5)", true).
+Proof.
+  cbv zeta. eexists. split; [vm_compute; reflexivity|].
+  split. { intros e [<-|[<-|[<-|[]]]]; vm_compute; discriminate. }
+  split. { eexists; eexists. split; [right; right; left; reflexivity|]. split; [reflexivity|]. vm_compute. reflexivity. }
+  split; [reflexivity|].
+  split. { intros e' [<-|[<-|[]]] Ht; [eexists; vm_compute; reflexivity|discriminate]. }
+  vm_compute. reflexivity.
+Qed.
+
+(* 15. (issue 6) The signature string identifies (name, parameter types): for names without '(' and
+       valid parameter types WITHOUT tuple members (elementary types and arrays of them, any
+       dimensions) the specification's signature is injective ... *)
+From FFS Require Abi.EntryRefereeInj AbiType.ProofsArr AbiType.ProofsMain.
+Theorem C12_signature_injective_plain :
+  forall (n1 n2 : bytes) (ts1 ts2 : list Abi.Types.ty),
+    AbiType.ProofsArr.no_byte x28 n1 -> AbiType.ProofsArr.no_byte x28 n2 ->
+    Forall (fun t => valid_type t = true /\ AbiType.ProofsMain.tuple_free_ty t = true) ts1 ->
+    Forall (fun t => valid_type t = true /\ AbiType.ProofsMain.tuple_free_ty t = true) ts2 ->
+    signature_spec n1 ts1 = signature_spec n2 ts2 -> n1 = n2 /\ ts1 = ts2.
+Proof. exact Abi.EntryRefereeInj.signature_spec_inj_plain. Qed.
+Print Assumptions C12_signature_injective_plain.
+
+(* 15b. ... hence two such entries that differ in (name, parameter types) have different signature
+        strings, and if their selectors (event topics) coincide the hash collides on two different
+        strings (on its first four bytes / on the whole digest). *)
+Theorem C12_distinct_entries_collide :
+  forall (H : bytes -> bytes), (forall m, List.length (H m) = 32%nat) ->
+  forall (e1 e2 : entry) (cs1 cs2 : list tcomp),
+    tree_children (e_inputs e1) = Ok cs1 -> all_suffix_canonical cs1 ->
+    tree_children (e_inputs e2) = Ok cs2 -> all_suffix_canonical cs2 ->
+    AbiType.ProofsArr.no_byte x28 (e_name e1) -> AbiType.ProofsArr.no_byte x28 (e_name e2) ->
+    Forall (fun t => valid_type t = true /\ AbiType.ProofsMain.tuple_free_ty t = true) (map ty_of cs1) ->
+    Forall (fun t => valid_type t = true /\ AbiType.ProofsMain.tuple_free_ty t = true) (map ty_of cs2) ->
+    (e_name e1, map ty_of cs1) <> (e_name e2, map ty_of cs2) ->
+    let s1 := signature_spec (e_name e1) (map ty_of cs1) in
+    let s2 := signature_spec (e_name e2) (map ty_of cs2) in
+    Signature e1 = Ok s1 /\ Signature e2 = Ok s2 /\ s1 <> s2 /\
+    (GenerateFunctionSelector H e1 = GenerateFunctionSelector H e2 -> firstn 4 (H s1) = firstn 4 (H s2)) /\
+    (SignatureHashBytes H e1 = SignatureHashBytes H e2 -> H s1 = H s2).
+Proof. exact Abi.EntryRefereeInj.distinct_entries_collide. Qed.
+Print Assumptions C12_distinct_entries_collide.
+
+Example C12_distinct_entries_nonvacuous :
+  let cs := [tAddr "to"; tU256 "amount"] in
+  tree_children (e_inputs ex_transfer) = Ok cs /\ all_suffix_canonical cs /\
+  AbiType.ProofsArr.no_byte x28 (e_name ex_transfer) /\ AbiType.ProofsArr.no_byte x28 (e_name ex_other) /\
+  Forall (fun t => valid_type t = true /\ AbiType.ProofsMain.tuple_free_ty t = true) (map ty_of cs) /\
+  (e_name ex_transfer, map ty_of cs) <> (e_name ex_other, map ty_of cs).
+Proof.
+  cbv zeta. split; [reflexivity|]. split; [cbn; repeat split; vm_compute; reflexivity|].
+  split; [repeat constructor|]. split; [repeat constructor|].
+  split; [repeat constructor|]. intros E. vm_compute in E. discriminate.
+Qed.
+
+(* 16. (issue 5) The no-panic hypotheses discharged for the decoder model of C03 with C11's totality
+       theorems: for ABIs whose parameters have valid type trees ([params_wf]: Entry.Validate passed),
+       revert data accepted by some error definition IS attributed, to the first accepting definition,
+       which carries the selector found in the data; and an event log with too few topics is refused
+       with an error (never a panic). *)
+From FFS Require Abi.EntryRefereeTotal Abi.DecTotalProofs3.
+Theorem C12_error_found_codec :
+  forall (H : bytes -> bytes), (forall m, List.length (H m) = 32%nat) ->
+  forall (a : list entry) (d : bytes),
+    (forall e, In e a -> Abi.DecTotalProofs3.params_wf (e_inputs e)) ->
+    (exists e v, In e (default_error :: a) /\ e_type e = TyError /\ DecodeCallData H Abi.DecModel.DecodeABIData e d = Ok v) ->
+    exists pre e post v,
+      default_error :: a = pre ++ e :: post /\ e_type e = TyError /\
+      ParseError H Abi.DecModel.DecodeABIData a d = Ok (Some (e, v)) /\
+      DecodeCallData H Abi.DecModel.DecodeABIData e d = Ok v /\
+      GenerateFunctionSelector H e = Ok (firstn 4 d) /\
+      (forall e', In e' pre -> e_type e' = TyError -> exists c, DecodeCallData H Abi.DecModel.DecodeABIData e' d = Err c).
+Proof. exact Abi.EntryRefereeTotal.error_found_codec. Qed.
+Print Assumptions C12_error_found_codec.
+
+Theorem C12_event_too_few_topics_codec :
+  forall (H : bytes -> bytes) (e : entry) (topics : list bytes) (data : bytes),
+    Abi.DecTotalProofs3.params_wf (e_inputs e) ->
+    (List.length topics < topics_needed (e_anonymous e) (map p_indexed (e_inputs e)))%nat ->
+    exists c, DecodeEventData H Abi.DecModel.DecodeABIData Abi.DecModel.decode_elementary e topics data = Err c.
+Proof. exact Abi.EntryRefereeTotal.event_too_few_topics_codec. Qed.
+Print Assumptions C12_event_too_few_topics_codec.
+
+Example C12_params_wf_nonvacuous :
+  Abi.DecTotalProofs3.params_wf (e_inputs ex_event2) /\
+  (List.length [SignatureHashBytes toyH ex_event2; repeat x00 32]
+     < topics_needed (e_anonymous ex_event2) (map p_indexed (e_inputs ex_event2)))%nat.
+Proof.
+  split; [|vm_compute; lia].
+  intros p tc Hin E. cbn [e_inputs ex_event2 In] in Hin.
+  repeat (destruct Hin as [<-|Hin]; [cbn in E; injection E as <-; vm_compute; reflexivity|]). destruct Hin.
+Qed.
+
+(* 17. (issue 6, in full) The canonical spelling is injective on ALL valid types -- tuples, nested
+       tuples and arrays of them included -- and so is the signature in (name, parameter types) for names
+       without '('; two entries that differ in (name, types) and have the same selector / event topic
+       exhibit a hash collision on two different signature strings.  (15 / 15b are the special case
+       without tuple members, kept.) *)
+From FFS Require Abi.EntryRefereeInj2.
+Theorem C12_canonical_injective :
+  forall t t' : Abi.Types.ty, valid_type t = true -> valid_type t' = true -> canonical t = canonical t' -> t = t'.
+Proof. exact Abi.EntryRefereeInj2.canonical_inj. Qed.
+Print Assumptions C12_canonical_injective.
+
+Theorem C12_signature_injective :
+  forall (n1 n2 : bytes) (ts1 ts2 : list Abi.Types.ty),
+    AbiType.ProofsArr.no_byte x28 n1 -> AbiType.ProofsArr.no_byte x28 n2 ->
+    forallb valid_type ts1 = true -> forallb valid_type ts2 = true ->
+    signature_spec n1 ts1 = signature_spec n2 ts2 -> n1 = n2 /\ ts1 = ts2.
+Proof. exact Abi.EntryRefereeInj2.signature_spec_inj. Qed.
+Print Assumptions C12_signature_injective.
+
+Theorem C12_distinct_entries_collide_all :
+  forall (H : bytes -> bytes), (forall m, List.length (H m) = 32%nat) ->
+  forall (e1 e2 : entry) (cs1 cs2 : list tcomp),
+    tree_children (e_inputs e1) = Ok cs1 -> all_suffix_canonical cs1 ->
+    tree_children (e_inputs e2) = Ok cs2 -> all_suffix_canonical cs2 ->
+    AbiType.ProofsArr.no_byte x28 (e_name e1) -> AbiType.ProofsArr.no_byte x28 (e_name e2) ->
+    forallb valid_type (map ty_of cs1) = true -> forallb valid_type (map ty_of cs2) = true ->
+    (e_name e1, map ty_of cs1) <> (e_name e2, map ty_of cs2) ->
+    let s1 := signature_spec (e_name e1) (map ty_of cs1) in
+    let s2 := signature_spec (e_name e2) (map ty_of cs2) in
+    Signature e1 = Ok s1 /\ Signature e2 = Ok s2 /\ s1 <> s2 /\
+    (GenerateFunctionSelector H e1 = GenerateFunctionSelector H e2 -> firstn 4 (H s1) = firstn 4 (H s2)) /\
+    (SignatureHashBytes H e1 = SignatureHashBytes H e2 -> H s1 = H s2).
+Proof. exact Abi.EntryRefereeInj2.distinct_entries_collide_all. Qed.
+Print Assumptions C12_distinct_entries_collide_all.
+
+(* two events that differ only in the nesting of a tuple: f((uint256,string)[],address) vs f((uint256,string[]),address) *)
+Example C12_distinct_entries_all_nonvacuous :
+  let cs1 := [TCDynArr (TCTuple [tU256 "x"; tStr "y"] (Sb "t")) (Sb "t"); tAddr "w"] in
+  let cs2 := [TCTuple [tU256 "x"; TCDynArr (tStr "y") (Sb "y")] (Sb "t"); tAddr "w"] in
+  all_suffix_canonical cs1 /\ all_suffix_canonical cs2 /\
+  forallb valid_type (map ty_of cs1) = true /\ forallb valid_type (map ty_of cs2) = true /\
+  (Sb "f", map ty_of cs1) <> (Sb "f", map ty_of cs2) /\
+  signature_spec (Sb "f") (map ty_of cs1) = Sb "f((uint256,string)[],address)" /\
+  signature_spec (Sb "f") (map ty_of cs2) = Sb "f((uint256,string[]),address)".
+Proof.
+  cbv zeta. split; [cbn; repeat split; vm_compute; reflexivity|]. split; [cbn; repeat split; vm_compute; reflexivity|].
+  split; [vm_compute; reflexivity|]. split; [vm_compute; reflexivity|].
+  split; [intros E; vm_compute in E; discriminate|]. split; vm_compute; reflexivity.
+Qed.
